@@ -206,3 +206,199 @@ fn c18_try_from_year_range() {
         }
     }
 }
+
+// ---------------------------------------------------------------------------------------------
+// C06: path sanitisation against an independent lexical model (Unix host semantics)
+// ---------------------------------------------------------------------------------------------
+fn zfd_named(name: String) -> ZipFileData {
+    ZipFileData {
+        system: System::Unix,
+        version_made_by: 20,
+        encrypted: false,
+        using_data_descriptor: false,
+        compression_method: crate::compression::CompressionMethod::Stored,
+        compression_level: None,
+        last_modified_time: DateTime::default(),
+        crc32: 0,
+        compressed_size: 0,
+        uncompressed_size: 0,
+        file_name: name,
+        file_name_raw: Vec::new(),
+        extra_field: Vec::new(),
+        file_comment: String::new(),
+        header_start: 0,
+        central_header_start: 0,
+        data_start: AtomicU64::new(0),
+        external_attributes: 0,
+        large_file: false,
+        aes_mode: None,
+    }
+}
+
+fn path_byte(sel: u8) -> u8 {
+    match sel {
+        0 => b'a',
+        1 => b'.',
+        2 => b'/',
+        3 => b'\\',
+        _ => 0,
+    }
+}
+
+/// reference for enclosed_name: Some iff no NUL, not absolute, depth never negative
+fn ref_enclosed<const L: usize>(n: &[u8; L]) -> bool {
+    let mut i = 0;
+    while i < L {
+        if n[i] == 0 {
+            return false;
+        }
+        i += 1;
+    }
+    if L > 0 && n[0] == b'/' {
+        return false;
+    }
+    let mut depth: i32 = 0;
+    let mut start = 0;
+    let mut i = 0;
+    while i <= L {
+        if i == L || n[i] == b'/' {
+            let len = i - start;
+            if len == 0 || (len == 1 && n[start] == b'.') {
+                // empty or current-dir component: no effect
+            } else if len == 2 && n[start] == b'.' && n[start + 1] == b'.' {
+                depth -= 1;
+                if depth < 0 {
+                    return false;
+                }
+            } else {
+                depth += 1;
+            }
+            start = i + 1;
+        }
+        i += 1;
+    }
+    true
+}
+
+/// reference for mangled_name: cut at first NUL, '\' -> '/', keep only ordinary components in
+/// order, joined by '/'. Returns the length written into `out`.
+fn ref_mangled<const L: usize>(n: &[u8; L], out: &mut [u8; 8]) -> usize {
+    let mut end = L;
+    let mut i = 0;
+    while i < L {
+        if n[i] == 0 {
+            end = i;
+            break;
+        }
+        i += 1;
+    }
+    let mut o = 0;
+    let mut start = 0;
+    let mut i = 0;
+    while i <= end {
+        let sep = i == end || n[i] == b'/' || n[i] == b'\\';
+        if sep {
+            let len = i - start;
+            let dot = len == 1 && n[start] == b'.';
+            let dotdot = len == 2 && n[start] == b'.' && n[start + 1] == b'.';
+            if len > 0 && !dot && !dotdot {
+                if o > 0 {
+                    out[o] = b'/';
+                    o += 1;
+                }
+                let mut k = start;
+                while k < i {
+                    out[o] = n[k];
+                    o += 1;
+                    k += 1;
+                }
+            }
+            start = i + 1;
+        }
+        i += 1;
+    }
+    o
+}
+
+macro_rules! c06_names {
+    ($name:ident, $l:expr, $first:expr, $unwind:expr) => {
+        #[kani::proof]
+        #[kani::unwind($unwind)]
+        fn $name() {
+            const L: usize = $l;
+            let sel: [u8; L] = kani::any();
+            let mut n = [0u8; L];
+            let mut i = 0;
+            while i < L {
+                kani::assume(sel[i] < 5);
+                n[i] = path_byte(sel[i]);
+                i += 1;
+            }
+            let first: i32 = $first;
+            if first >= 0 {
+                kani::assume(sel[0] == first as u8);
+            }
+            let s = unsafe { String::from_utf8_unchecked(n.to_vec()) };
+            let f = zfd_named(s);
+            // validated accessor
+            let want = ref_enclosed(&n);
+            match f.enclosed_name() {
+                Some(p) => {
+                    assert!(want, "enclosed_name accepted an escaping/absolute/NUL name");
+                    let pb = p.as_os_str().as_encoded_bytes();
+                    assert_eq!(pb.len(), L);
+                    let mut i = 0;
+                    while i < L {
+                        assert_eq!(pb[i], n[i]);
+                        i += 1;
+                    }
+                    kani::cover!(true);
+                }
+                None => {
+                    assert!(!want, "enclosed_name rejected a safe name");
+                    kani::cover!(true);
+                }
+            }
+            // always-succeeding accessor
+            let mut exp = [0u8; 8];
+            let el = ref_mangled(&n, &mut exp);
+            let m = f.file_name_sanitized();
+            let mb = m.as_os_str().as_encoded_bytes();
+            assert_eq!(mb.len(), el);
+            let mut i = 0;
+            while i < el {
+                assert_eq!(mb[i], exp[i]);
+                i += 1;
+            }
+            // consequence: relative, no NUL, no '..' component (checked on the reference form)
+            assert!(el == 0 || exp[0] != b'/');
+            kani::cover!(el > 0 || sel[0] == 4 || sel[0] == 2 || sel[0] == 3 || sel[0] == 1);
+            core::mem::forget(m);
+            core::mem::forget(f);
+        }
+    };
+}
+/// C06 every name of length 2 over the path-relevant alphabet {a . / \ NUL} (25 names in one
+/// query): enclosed_name is Some exactly when an independent lexical walk says the name is
+/// relative, NUL-free and never climbs above its start, and then returns the name unchanged;
+/// mangled_name equals the reference (cut at NUL, \ -> /, only ordinary components in order).
+// @h prop=C06 tier=quick t=900 mem=10 name=c06_names_len2
+c06_names!(c06_names_len2, 2, -1, 8);
+/// C06 every name of length 3 over {a . / \ NUL} (125 names).
+// @h prop=C06 tier=quick t=1500 mem=16 name=c06_names_len3
+c06_names!(c06_names_len3, 3, -1, 9);
+/// C06 names of length 4 starting with 'a' (125 names).
+// @h prop=C06 tier=thorough t=3000 mem=20 name=c06_names_len4_a
+c06_names!(c06_names_len4_a, 4, 0, 10);
+/// C06 names of length 4 starting with '.' (125 names).
+// @h prop=C06 tier=thorough t=3000 mem=20 name=c06_names_len4_dot
+c06_names!(c06_names_len4_dot, 4, 1, 10);
+/// C06 names of length 4 starting with '/' (125 names).
+// @h prop=C06 tier=thorough t=3000 mem=20 name=c06_names_len4_slash
+c06_names!(c06_names_len4_slash, 4, 2, 10);
+/// C06 names of length 4 starting with '\' (125 names).
+// @h prop=C06 tier=thorough t=3000 mem=20 name=c06_names_len4_bslash
+c06_names!(c06_names_len4_bslash, 4, 3, 10);
+/// C06 names of length 4 starting with NUL (125 names).
+// @h prop=C06 tier=thorough t=3000 mem=20 name=c06_names_len4_nul
+c06_names!(c06_names_len4_nul, 4, 4, 10);
